@@ -13,7 +13,8 @@ from __future__ import annotations
 
 import ast
 
-from pv.q import text as qtext
+from pv.q import text as qtext, find_if, returns
+from pv.q import stmts as q_stmts
 from pv.model import AnalysisError, walk_no_nested, params, UNKNOWN
 from pv.norm import Normalizer, single_defs
 from pv.q import has_stmt, has_if, find_if, returns, body_texts
@@ -195,6 +196,18 @@ def rule_e(model, rep):
               witness="a per-scheme setting is overridden by the global 'all' setting, or a category override is ignored")
     rep.check("allowed_settings = self.expand_settings(self.get_base_handler(scheme))" in t and "for key in set(kwds).difference(allowed_settings):\n    kwds.pop(key)" in t, R,
               site(CTX, "_CryptConfig.get_scheme_options_with_flag"), "filter 'all' options by the handler's settings", "global options a handler does not support are dropped, not passed")
+    # the category-free baseline `defkwds` never sees a category map, so that any category override makes the two differ
+    seq = [x for x in q_stmts(fn) if not isinstance(x, (ast.If, ast.For))]
+    txts = [ast.unparse(x) for x in seq]
+    i_snap = txts.index("defkwds = kwds.copy()") if "defkwds = kwds.copy()" in txts else None
+    i_cat = next((i for i, x in enumerate(txts) if "category)" in x and "get_optionmap(" in x), None)
+    def_updates = [x for x in txts if x.startswith("defkwds.update(")]
+    ok = i_snap is not None and i_cat is not None and i_snap < i_cat and def_updates == ["defkwds.update(other)"] and "other = get_optionmap(scheme, None)" in txts
+    rep.check(ok, R, site(CTX, "_CryptConfig.get_scheme_options_with_flag") + " baseline", f"snapshot@{i_snap} first category map@{i_cat}; baseline updates {def_updates}",
+              "the baseline used to detect category-specific options is copied before the first category map is merged and is only ever updated with category-free maps",
+              witness="overrides given only as `<category>__all__<option>` are not detected: no per-category record is built and hash()/needs_update() for that category use the default policy")
+    cmp_if = find_if(fn, "kwds != defkwds", ["has_cat_options = True"])
+    rep.check(bool(cmp_if) and returns(fn) == ["(kwds, has_cat_options)"], R, site(CTX, "_CryptConfig.get_scheme_options_with_flag") + " flag", "kwds != defkwds -> has_cat_options", "the flag is the inequality of the two overlays")
     fn = model.func(CTX, "_CryptConfig.expand_settings")
     t = qtext(fn)
     ok = "setting_kwds = handler.setting_kwds" in t and "setting_kwds += uh.HasRounds.using_rounds_kwds" in t and t.rstrip().endswith("return setting_kwds")
